@@ -46,6 +46,7 @@ def yaml_with_anchors(doc):
     import ruamel.yaml
     s = io.StringIO()
     y = ruamel.yaml.YAML(typ="safe")
+    y.sort_base_mapping_type_on_output = False    # keep the document's key order (metadata order is part of the model)
     y.dump(doc, s)
     return s.getvalue()
 
